@@ -27,11 +27,11 @@ import (
 
 type lifecycleStub struct{}
 
-func (lifecycleStub) Start(context.Context, string) error                               { return nil }
-func (lifecycleStub) Stop(context.Context, string, bool) error                          { return nil }
-func (lifecycleStub) StopAndWait(context.Context, string) error                         { return nil }
-func (lifecycleStub) ReconfigureProcessor(context.Context, string, string) error        { return nil }
-func (lifecycleStub) WaitPipeline(string) error                                         { return nil }
+func (lifecycleStub) Start(context.Context, string) error                        { return nil }
+func (lifecycleStub) Stop(context.Context, string, bool) error                   { return nil }
+func (lifecycleStub) StopAndWait(context.Context, string) error                  { return nil }
+func (lifecycleStub) ReconfigureProcessor(context.Context, string, string) error { return nil }
+func (lifecycleStub) WaitPipeline(string) error                                  { return nil }
 
 type sys struct {
 	db    *verifkit.VDB
